@@ -193,6 +193,9 @@ func (x *Exec) builtin(env *evalEnv, n *ast.CallExpr, name string) []Val {
 			arr := x.ctx.Fresh("app", fmt.Sprintf("(Array Int %s)", x.ctx.Sort(st.Elem())))
 			ls, lo := x.ctx.slLen(s), x.ctx.slLen(o)
 			x.assumeQ(fmt.Sprintf("(forall ((i Int)) (! (= (select %s i) (ite (< i %s) (select %s i) (select %s (- i %s)))) :pattern ((select %s i))))", arr, ls, x.ctx.slArr(s), x.ctx.slArr(o), ls, arr))
+			// the same fact triggered from the appended slice, so that an element of it yields its new position as a witness
+			x.assumeQ(fmt.Sprintf("(forall ((k Int)) (! (=> (<= 0 k) (= (select %s (+ %s k)) (select %s k))) :pattern ((select %s k))))", arr, ls, x.ctx.slArr(o), x.ctx.slArr(o)))
+			x.assumeQ(fmt.Sprintf("(forall ((k Int)) (! (=> (and (<= 0 k) (< k %s)) (= (select %s k) (select %s k))) :pattern ((select %s k))))", ls, arr, x.ctx.slArr(s), x.ctx.slArr(s)))
 			isnil := and(x.ctx.slNil(s), "(= "+lo+" 0)")
 			return []Val{{x.ctx.mkSlice(s.Ty, arr, "(+ "+ls+" "+lo+")", isnil, x.appendBid(s)), s.Ty}}
 		}
@@ -848,13 +851,78 @@ func shortKey(k string) string {
 func (x *Exec) evalArgs(env *evalEnv, n *ast.CallExpr) []Val {
 	var vs []Val
 	for _, a := range n.Args {
-		if _, ok := a.(*ast.FuncLit); ok {
+		if fl, ok := a.(*ast.FuncLit); ok {
 			vs = append(vs, Val{"0", nil})
+			if x.inSpec == 0 && env.info != nil {
+				x.execClosure(env, fl)
+			}
 			continue
 		}
 		vs = append(vs, x.expr(env, a))
 	}
+	if x.curLib != "" && x.curLibPos == n.Pos() {
+		x.emitSites = append(x.emitSites, &emitSite{Ord: len(x.emitSites), Format: "@call:" + x.curLib, Args: vs, St: x.st.clone(), Pos: n.Pos()})
+		x.curLib = ""
+	}
 	return vs
+}
+
+// execClosure: a function literal handed to a library function (regexp.ReplaceAllStringFunc, strings.Map, ...) is
+// executed once, for arbitrary arguments, in the state at the call, so that the obligations inside it (emits, bounds,
+// statement assertions) are generated. Variables it assigns are havoced afterwards; its results are not used.
+func (x *Exec) execClosure(env *evalEnv, fl *ast.FuncLit) {
+	cur := x.fr()
+	fr := &frame{unit: cur.unit, con: cur.con, top: cur.top, loopOrd: cur.loopOrd, backLbl: cur.backLbl, env: cur.env}
+	before := x.st
+	st := x.st.clone()
+	for _, f := range fl.Type.Params.List {
+		for _, nm := range f.Names {
+			if o, ok := env.info.Defs[nm].(*types.Var); ok {
+				v := Val{x.ctx.Fresh(nm.Name, x.ctx.Sort(o.Type())), o.Type()}
+				st.vars[o] = v
+				sv := x.st
+				x.st = st
+				x.readFacts(v)
+				x.st = sv
+			}
+		}
+	}
+	if fl.Type.Results != nil {
+		i := 0
+		for _, f := range fl.Type.Results.List {
+			t := env.info.TypeOf(f.Type)
+			n := len(f.Names)
+			if n == 0 {
+				n = 1
+			}
+			for k := 0; k < n; k++ {
+				var r *types.Var
+				if k < len(f.Names) {
+					r, _ = env.info.Defs[f.Names[k]].(*types.Var)
+				}
+				if r == nil {
+					r = types.NewVar(token.NoPos, cur.unit.Pkg.Types, fmt.Sprintf("clres%d", i), t)
+				}
+				st.vars[r] = Val{x.ctx.Zero(t), t}
+				fr.results = append(fr.results, r)
+				i++
+			}
+		}
+	}
+	x.frames = append(x.frames, fr)
+	x.depth++
+	f := x.block(fl.Body.List, st)
+	x.depth--
+	x.frames = x.frames[:len(x.frames)-1]
+	if len(f.brk) > 0 || len(f.cont) > 0 || len(f.gotos) > 0 {
+		x.fail(fl.Pos(), "dangling break/continue/goto out of a function literal")
+	}
+	// back in the caller: what the literal assigned (captured variables, heap) is unknown after an unknown number of calls
+	ms := newModSet()
+	x.collectMods(cur.unit, fl.Body, ms, map[*types.Func]bool{})
+	x.st = before
+	x.havocMods(ms, x.st)
+	x.note("function literal passed to a library function: body executed once for arbitrary arguments in the state at the call")
 }
 
 func (x *Exec) freshResults(sig *types.Signature, prefix string) []Val {
@@ -870,6 +938,15 @@ func (x *Exec) freshResults(sig *types.Signature, prefix string) []Val {
 
 func (x *Exec) libCall(env *evalEnv, n *ast.CallExpr, fn *types.Func, full string, recvExpr ast.Expr) []Val {
 	sig := fn.Type().(*types.Signature)
+	// `libarg "pkg.Func" argN == E` clauses: the arguments of this call are recorded with the state at the call
+	if fr := x.fr(); fr.con != nil && x.inSpec == 0 {
+		for _, cl := range fr.con.Clauses {
+			if cl.Kind == "libarg" && strings.HasPrefix(strings.TrimSpace(cl.Text), "\""+full+"\"") {
+				x.curLib, x.curLibPos = full, n.Pos()
+				break
+			}
+		}
+	}
 	switch full {
 	case "fmt.Printf", "fmt.Println", "fmt.Print":
 		args := x.evalArgs(env, n)
@@ -1034,7 +1111,7 @@ func (x *Exec) sortModel(env *evalEnv, n *ast.CallExpr) []Val {
 	arr := x.ctx.Fresh("sorted", fmt.Sprintf("(Array Int %s)", es))
 	ln := x.ctx.slLen(s)
 	x.st.assume(fmt.Sprintf("(forall ((k Int)) (! (=> (and (<= 0 k) (< k %s)) (and (<= 0 (%s k)) (< (%s k) %s) (= (%s (%s k)) k) (= (select %s k) (select %s (%s k))))) :pattern ((%s k)) :pattern ((select %s k))))", ln, pi, pi, ln, pinv, pi, arr, x.ctx.slArr(s), pi, pi, arr))
-	x.st.assume(fmt.Sprintf("(forall ((j Int)) (! (=> (and (<= 0 j) (< j %s)) (and (<= 0 (%s j)) (< (%s j) %s) (= (%s (%s j)) j))) :pattern ((%s j))))", ln, pinv, pinv, ln, pi, pinv, pinv))
+	x.st.assume(fmt.Sprintf("(forall ((j Int)) (! (=> (and (<= 0 j) (< j %s)) (and (<= 0 (%s j)) (< (%s j) %s) (= (%s (%s j)) j) (= (select %s (%s j)) (select %s j)))) :pattern ((%s j)) :pattern ((select %s j))))", ln, pinv, pinv, ln, pi, pinv, arr, pinv, x.ctx.slArr(s), pinv, x.ctx.slArr(s)))
 	x.assignTo(n.Args[0], Val{x.ctx.mkSlice(s.Ty, arr, ln, x.ctx.slNil(s), x.ctx.slBid(s)), s.Ty})
 	x.st.ghost["sortperm"] = Val{pi, nil}
 	// assumed: the result is ordered by less (evaluated on the sorted slice): forall i<j: !less(j,i)
